@@ -230,6 +230,8 @@ def checks(tier):
             for claim in ("identity", "symmetry", "bounds"):
                 if claim == "identity" and cost == "any":
                     continue      # documented: an infinite cost counts coincident spikes too
+                if claim == "symmetry" and (n0, n1) == (3, 3):
+                    continue      # measured: z3 returns unknown after 120 s on the 3x3 dynamic-programming table (stated as outside the bound)
                 vps.append(dict(n0=n0, n1=n1, cost=cost, claim=claim))
         for cost in (0.0, float("inf")):
             vps.append(dict(n0=n0, n1=n1, cost=cost, claim="limits"))
